@@ -252,11 +252,57 @@ def solver_reuse(ctx, rng):
             ctx.count("solver-reuse")
 
 
+def inplace_overwrite(ctx, rng):
+    """The caller overwrites its own dataset arrays in place between two solves (C-contiguous, Fortran-ordered, strided views,
+    float32): the reused object must give what a fresh object built from the same arrays gives now."""
+    from symfc import Symfc
+    from solvers import Prepared
+
+    P = Prepared("mono_P", (1, 1, 1), rng)
+    N = P.N
+    n = 3 * int(np.ceil(sum(P.nb[k] for k in (2, 3)) / (3 * N))) + 6
+    d1, f1 = rng.normal(size=(n, N, 3)) * 0.05, rng.normal(size=(n, N, 3))
+    d2, f2 = rng.normal(size=(n, N, 3)) * 0.05, rng.normal(size=(n, N, 3))
+    layouts = {
+        "C-contiguous": lambda a: np.ascontiguousarray(a),
+        "Fortran-ordered": lambda a: np.asfortranarray(a),
+        "strided view": lambda a: np.repeat(a, 2, axis=0)[::2],
+        "moveaxis view": lambda a: np.moveaxis(np.ascontiguousarray(np.moveaxis(a, 0, -1)), -1, 0),
+    }
+    for lname, mk in layouts.items():
+        for which in ("both", "forces only"):
+            for orders, compact in (((2,), True), ((2, 3), False)):
+                dbuf, fbuf = mk(d1.copy()), mk(f1.copy())
+                o = Symfc(P.atoms, displacements=dbuf, forces=fbuf)
+                o.basis_set = dict(P.basis)
+                ctx.case({"inplace_overwrite": lname, "arrays": which, "orders": list(orders), "compact": compact}, nontrivial=True)
+                ctx.count("inplace-overwrite")
+                try:
+                    o.solve(orders=list(orders), is_compact_fc=compact)
+                    fbuf[...] = f2
+                    if which == "both":
+                        dbuf[...] = d2
+                    o.solve(orders=list(orders), is_compact_fc=compact)
+                    fresh = Symfc(P.atoms, displacements=dbuf, forces=fbuf)
+                    fresh.basis_set = dict(P.basis)
+                    fresh.solve(orders=list(orders), is_compact_fc=compact)
+                except np.linalg.LinAlgError:
+                    ctx.count("skipped-singular")
+                    continue
+                for k in orders:
+                    a, b = np.asarray(o.force_constants[k]), np.asarray(fresh.force_constants[k])
+                    if a.shape != b.shape or not np.abs(a - b).max() <= 1e-9 * max(np.abs(b).max(), 1e-300):
+                        ctx.fail("oracle", "C12/oracle/inplace-overwrite", f"{lname} dataset given to the constructor, {which} overwritten in place by the caller, orders {orders}: the second solve of the reused object differs from a fresh object on the same arrays (fc{k})",
+                                 replay={**P.describe(), "layout": lname, "arrays": which, "orders": list(orders), "compact": compact}, has_input=True)
+                        break
+
+
 def check(ctx):
     rng = np.random.default_rng(ctx.seed)
     multi_object(ctx, rng)
     twin_supercells(ctx, np.random.default_rng(ctx.seed + 77))
     solver_reuse(ctx, np.random.default_rng(ctx.seed + 78))
+    inplace_overwrite(ctx, np.random.default_rng(ctx.seed + 79))
     ctx.rule = ("random histories (length 8 quick / 12) over set-displacements / set-forces / hand-over of shared basis sets / compute / solve / run, mostly valid, "
                 "on two small crystals (with and without cutoff), basis sets shared between all objects of a world; non-trivial: history contains a solve or run")
     worlds = [World(rng, "mono_P"), World(rng, "tri2_Pm1", cutoff={3: 4.0}, n_snaps=(14, 14, 18))]
